@@ -79,6 +79,21 @@ def _seed_functions(repo, pid):
                             hit = True
                         elif rest.endswith(".main") and "*" in rest:
                             hit = True
+                        elif "." in rest:
+                            # a nested function / method that has gone: the
+                            # longest prefix that still names something
+                            parts = rest.split(".")
+                            for k in range(len(parts) - 1, 0, -1):
+                                pre = ".".join(parts[:k])
+                                if pre in m.functions:
+                                    seeds.append(m.functions[pre])
+                                    hit = True
+                                    break
+                                if pre in m.classes:
+                                    last_cls = m.classes[pre]
+                                    seeds.extend(last_cls.methods.values())
+                                    hit = True
+                                    break
                         break
                 if hit:
                     continue
